@@ -1730,6 +1730,7 @@ func (self *LockDB) doTimeOut(lock *Lock, forcedExpried bool, removeWaited bool)
 	lockLocked := lock.locked
 	lock.timeouted = true
 	lockProtocol, lockCommand := lock.protocol, lock.command
+	requireWakeup := false
 
 	if lockLocked > 0 {
 		lockManager.locked -= uint32(lockLocked)
@@ -1755,6 +1756,9 @@ func (self *LockDB) doTimeOut(lock *Lock, forcedExpried bool, removeWaited bool)
 		if lockManager.GetWaitLock() == nil {
 			lockManager.waited = false
 		}
+		// the request behind the one that leaves is the head of the queue now, and may be admissible
+		// where this one was not
+		requireWakeup = lockManager.waited
 		lockManager.state.WaitCount--
 		if self.subscribeChannels != nil && lock.command.TimeoutFlag&protocol.TIMEOUT_FLAG_PUSH_SUBSCRIBE != 0 {
 			_ = self.subscribeChannels[lockManager.glockIndex].Push(lockCommand, protocol.RESULT_TIMEOUT, uint16(lockManager.locked), lock.locked, lockManager.GetLockData())
@@ -1799,6 +1803,9 @@ func (self *LockDB) doTimeOut(lock *Lock, forcedExpried bool, removeWaited bool)
 			_ = self.PushExecutorLockCommand(lockProtocol, lockCommand)
 		} else {
 			_ = lockProtocol.FreeLockCommandLocked(lockCommand)
+		}
+		if requireWakeup {
+			self.wakeUpWaitLocks(lockManager, nil)
 		}
 	}
 }
@@ -2741,6 +2748,7 @@ func (self *LockDB) cancelWaitLock(lockManager *LockManager, command *protocol.L
 		self.RemoveLongTimeOut(waitLock)
 	}
 	lockProtocol, lockCommand := waitLock.protocol, waitLock.command
+	requireWakeup := false
 
 	if lockLocked > 0 {
 		lockManager.locked -= uint32(lockLocked)
@@ -2752,6 +2760,8 @@ func (self *LockDB) cancelWaitLock(lockManager *LockManager, command *protocol.L
 		if lockManager.GetWaitLock() == nil {
 			lockManager.waited = false
 		}
+		// as after a timeout: the queue has a new head
+		requireWakeup = lockManager.waited
 		lockManager.state.WaitCount--
 	}
 
@@ -2766,7 +2776,7 @@ func (self *LockDB) cancelWaitLock(lockManager *LockManager, command *protocol.L
 	_ = lockProtocol.ProcessLockResultCommandLocked(lockCommand, protocol.RESULT_UNLOCK_ERROR, uint16(lockManager.locked), waitLock.locked, lockManager.GetLockData())
 	_ = lockProtocol.FreeLockCommandLocked(lockCommand)
 
-	if lockLocked > 0 {
+	if lockLocked > 0 || requireWakeup {
 		self.wakeUpWaitLocks(lockManager, nil)
 	}
 }
